@@ -24,6 +24,7 @@ def run(chk):
                 "0, 2^11, 2^29, 2^31, 2^32; matrices of 1..6 frames mixing 11-bit, J1939 and plain 29-bit frames probed with ids derived from "
                 "each frame by changing priority/SA/DA and with absent PGNs. non-trivial = extended id or rejected id or matrix probe; distinct by inputs")
     ok = chk.build_and_audit()
+    tr_ok = ok and core.translator_tie(chk, ['gen/Tie_arbid.v'], ['gen/Gen_arbid.v'])
     cm = core.import_impl()
     C = cm.canmatrix
     rng = chk.rng
